@@ -456,4 +456,5 @@ pub fn run(cfg: &Cfg, out: &mut Out) {
     // ArrayBuilder histories: push / build / clone / drop with len, is_full, as_slice after
     // every step, incl. over- and under-filling
     histories(cfg, out, "c11.builder", &[1]);
+    crate::c15::stress(cfg, out, "c11.builder", &[1]);
 }
